@@ -9,8 +9,14 @@ VARIABLES l, dirty    \* dirty: storage was modified out of band / by the unchec
 e == TraceLog[l]
 TInitS == Init /\ l = 1 /\ dirty = FALSE
 Restart == d' = <<>> /\ inited' = FALSE /\ mem' = <<>> /\ touched' = {} /\ ev' = [op |-> "@", a |-> <<>>, o |-> <<>>, alts |-> {<<>>}]
+(* The address space of RegTable.tla is translation invariant (nothing in it depends on absolute addresses).  The harness
+   exploits that: after  abase hi lo  it adds the 32-bit base to every area base, register address and request address
+   it hands to the library and subtracts it from every address the library reports, so the same model decides tables
+   that straddle 2^16, 2^31 or end just below 2^32.  (No area reaches 2^32 itself and no request wraps.)     *)
+Rebase == UNCHANGED vars /\ ev' = [op |-> "abase", a |-> e.a, o |-> <<0>>, alts |-> {<<0>>}]
 V(ty, w4) == LastN(w4, Size(ty))
 Step == CASE e.op = "@" -> Restart
+          [] e.op = "abase" -> Rebase
           [] e.op = "tinit" -> TInit(Unflatten(e.a))
           [] e.op = "set" -> Set(e.a[1], e.a[3], V(e.a[3], SubSeq(e.a, 4, 7)), e.a[2])
           [] e.op = "get" -> Get(e.a[1])
